@@ -6,7 +6,7 @@ import os
 from tfv import core
 from tfv.core import Violation, run_async
 from tfv.data import RefProvider, Tree
-from tfv.model import kind_of, named, possible_types, print_document, ty
+from tfv.model import canon, kind_of, named, possible_types, print_document, ty
 from tfv.props import c01
 from tfv.ref import Executor, Fault
 
@@ -27,6 +27,7 @@ RULE = (
     "message/locations/extensions well-formed and inside the failing field's text. Distinct = SHA-1 of (carrier, fault set); "
     "non-trivial = the nulled position differs from the fault site (a non-null layer was crossed) or the site is a list item."
     " A tenth of the cases plant the failures inside the events of a subscription (C14's machinery): each event's response accounts for its own failures only."
+    " Fault site output_hook_raises: the output hook of a directive on the value's type / enum value raises a library error (message and extensions must be preserved)."
 )
 ASSUMPTIONS = c01.ASSUMPTIONS + ["faults are injected only at harness-resolved fields (all fields in C02 carriers)"]
 DOC_OPTS = {"max_nodes": 16, "max_frags": 3}
@@ -127,6 +128,15 @@ def fault_sites(schema, ex):
         sites.append(("raise_tartiflette", path, user_fault(), False))
         sites.append(("raise_coercible", path, user_fault(duck=True), False))
         sites.append(("raise_located", path, user_fault(located=True), False))
+        tn0 = t[1] if t[0] == "NN" else t
+        if tn0[0] == "N" and res is not None and not isinstance(res, Fault):
+            td = schema["types"].get(tn0[1]) or {}
+            governed = any(d["name"] == "sd" for d in td.get("dirs") or ())
+            if td.get("kind") == "ENUM" and isinstance(res, str):
+                governed = governed or any(d["name"] == "sd" for d in (td.get("value_dirs") or {}).get(res) or ())
+            if governed:
+                # the output hook of a directive on the value's type / enum value raises a library error
+                sites.append(("output_hook_raises", ("$outhook",) + tuple(path), user_fault(), False))
         sites.append(("return_exception", path, Fault("return_exception"), False))
         for lab, f in value_faults(schema, t):
             sites.append((lab, path, f, False))
@@ -161,11 +171,15 @@ def key_to_json(k):
     return list(k)
 
 
-def install(tree, faults):
+def install(tree, faults, for_reference=False):
+    """for_reference: a failure raised by an output hook at a position is, for the specification, a failure of that position"""
     tree.faults = {}
-    for key, f in faults:
-        if f.kind != "var_null":
-            tree.faults[tuple(key)] = f
+    faults = [(tuple(k), f) for k, f in faults if f.kind != "var_null"]
+    # (a position whose resolver fails never reaches its output hooks: resolver-level faults are installed last and win)
+    for key, f in sorted(faults, key=lambda kf: not (kf[0] and kf[0][0] == "$outhook")):
+        if for_reference and key and key[0] == "$outhook":
+            key = key[1:]
+        tree.faults[key] = f
 
 
 def effective_variables(spec):
@@ -235,6 +249,8 @@ def compare_response(spec, printed, resp, expected, ref_errors, ex, ctx):
             raise Violation(spec, "empty extensions present %r%s" % (e, ctx), tag="shape")
     for p, lst in got_by_path.items():
         if len(lst) > len(ref_by_path[p]):
+            if {r["kind"] for r in ref_by_path[p]} == {"argument"} and len({canon(core.jsonable(e.get("locations"))) for e in lst}) == len(lst):
+                continue  # several arguments of one field failed their coercion: one entry each, located at different arguments
             raise Violation(spec, "failure at %r reported %d times%s" % (list(p), len(lst), ctx), tag="duplicate")
     # every visible nulled position is explained
     targets = {}
@@ -252,7 +268,7 @@ def check_faulted(spec, h, printed=None):
     schema = spec["schema"]
     faults = [(tuple(k), fault_from_json(f)) for k, f in spec["faults"]]
     tree = Tree(schema, None, copy.deepcopy(spec["tree"]))
-    install(tree, faults)
+    install(tree, faults, for_reference=True)
     plan = spec.get("plan") or {}
     no_echo = () if plan.get("custom_default_resolver") else (plan.get("default_fields") or ())  # as c01.reference
     ex = Executor(schema, spec["doc"], RefProvider(tree, no_echo=no_echo))
@@ -328,6 +344,10 @@ def case(c, stats):
             for _ in range(k):
                 s = sites[c.int(0, len(sites) - 1)]
                 chosen[s[1]] = s
+            # (an output-hook failure is combined only with failures at other positions: whether the hook still runs after a
+            # resolver-level fault at its own position depends on the kind of that fault)
+            for key in [k for k in chosen if k and k[0] == "$outhook" and tuple(k[1:]) in chosen]:
+                del chosen[key]
             sets.append(list(chosen.values()))
     base = {k: v for k, v in spec.items()}
     for fs in sets:
